@@ -39,16 +39,22 @@ def setup(b, ncalls):
     if not os.path.exists(fake) or open(fake).read() != text:
         open(fake, 'w').write(text)
     os.chmod(fake, 0o755)
+    # private copies taken under the build lock: a concurrent check relinking build/plain/bin must not be able to pull a
+    # binary away (or leave it half written) in the middle of the matrix
     vmcopy = os.path.join(bind, 'nano_vm')
-    if not os.path.exists(vmcopy) or os.path.getmtime(vmcopy) < os.path.getmtime(b.bin('nano_vm')):
-        shutil.copy2(b.bin('nano_vm'), vmcopy)
+    realcopy = os.path.join(bind, 'nano_cop.real')
+    with vlib.Lock():
+        for srcp, dst in ((b.bin('nano_vm'), vmcopy), (b.bin('nano_cop'), realcopy)):
+            if not os.path.exists(dst) or open(dst, 'rb').read() != open(srcp, 'rb').read():
+                tmp = dst + '.tmp'
+                shutil.copy2(srcp, tmp); os.replace(tmp, dst)
     src = os.path.join(r, 'prog%d.nano' % ncalls)
     nvm = os.path.join(r, 'prog%d.nvm' % ncalls)
     open(src, 'w').write(program(ncalls))
     rc, o, e = vlib.sh([b.bin('nano_virt'), src, '--emit-nvm', '-o', nvm], timeout=60, cwd=b.root)
     if rc != 0 or not os.path.exists(nvm):
         raise RuntimeError('cannot compile the C16 driver program: ' + (o + e)[-1500:])
-    return dict(bind=bind, vm=vmcopy, nvm=nvm, real=b.bin('nano_cop'), ncalls=ncalls)
+    return dict(bind=bind, vm=vmcopy, nvm=nvm, real=realcopy, ncalls=ncalls)
 
 
 def _alive(pid):
